@@ -608,25 +608,28 @@ Proof.
     rewrite F0, blob_size_recs, (HN eq_refl). split; [reflexivity|lia].
 Qed.
 
-Lemma do_open_members files c lazy f2 b' :
-  In b' (blobs_in_order (do_open K files c lazy f2)) ->
+Lemma do_open_members files quar c lazy f2 b' :
+  In b' (blobs_in_order (do_open K files [] quar c lazy f2)) ->
   (files = [] /\ b_recs b' = []) \/ (exists b, In b files /\ b_id b' = b_id b /\ b_recs b' = b_recs b).
 Proof.
   destruct files as [|f0 fs] eqn:EF.
   { intros H. left. split; [reflexivity|]. cbn in H. destruct H as [<-|[]]. reflexivity. }
   rewrite <- EF. assert (Hne : files <> []) by (rewrite EF; discriminate). clear EF f0 fs.
-  rewrite do_open_nonempty by exact Hne. intros H. right.
+  rewrite do_open_nonempty by exact Hne. rewrite good_files_nil. intros H. right.
   assert (HB : forall x, In x (sort_by_id (map (blob_from_file K) files)) ->
                exists b, In b files /\ b_id x = b_id b /\ b_recs x = b_recs b).
   { intros x Hx. apply in_sort_by_id, in_map_iff in Hx. destruct Hx as (b & <- & Hb).
     exists b. split; [exact Hb|]. split; [apply blob_from_file_id|apply blob_from_file_recs]. }
+  assert (HBne : forall f, In f files -> In (blob_from_file K f) (sort_by_id (map (blob_from_file K) files))).
+  { intros f Hf. apply in_sort_by_id, in_map, Hf. }
   set (blobs := sort_by_id (map (blob_from_file K) files)) in *. clearbody blobs. cbv zeta in H.
   destruct lazy.
   - rewrite bio_eq in H. cbn [s_closed s_active oa] in H. rewrite cb_map_some_f, app_nil_r in H.
     apply in_map_iff in H. destruct H as (x & <- & Hx). destruct (HB x Hx) as (b & Hb & Ei & Er).
     exists b. rewrite blob_dump_id, blob_dump_recs. auto.
   - destruct (rev blobs) as [|last r] eqn:R.
-    + cbn in H. destruct H.
+    + exfalso. apply (f_equal (@rev blob)) in R. rewrite rev_involutive in R. cbn [rev] in R.
+      destruct files as [|f0 fs]; [contradiction|]. specialize (HBne f0 (or_introl eq_refl)). rewrite R in HBne. exact HBne.
     + apply rev_cons_inv in R. subst blobs. rewrite bio_eq in H. cbn [s_closed s_active oa] in H.
       rewrite cb_map_some_f in H. apply in_app_or in H. destruct H as [H|[<-|[]]].
       * apply in_map_iff in H. destruct H as (x & <- & Hx).
@@ -636,7 +639,7 @@ Proof.
         exists b. rewrite blob_load_index_id, blob_load_index_recs. auto.
 Qed.
 
-Lemma do_open_no_dump_req files c lazy f2 : s_dump_req (do_open K files c lazy f2) = false.
+Lemma do_open_no_dump_req files bad quar c lazy f2 : s_dump_req (do_open K files bad quar c lazy f2) = false.
 Proof.
   destruct files as [|f0 fs] eqn:EF; [reflexivity|].
   rewrite <- EF. rewrite do_open_nonempty by (rewrite EF; discriminate). cbv zeta.
@@ -680,15 +683,17 @@ Proof.
   destruct (step K cfg s o) as [s' r]. cbn [fst] in *. apply quiesce_IdsOk, H1.
 Qed.
 
+(* `is_cut o = false`, `s_bad pre = []`: the trace is what the STORAGE asks of the file system. Damage done by a crash
+   (OCut) changes a file behind its back, and the file state followed here knows no truncation and no rename. *)
 Lemma step_trace_ok pre o st :
-  IdsOk pre -> NoActiveWhenClosed pre -> FR (blobs_in_order pre) st ->
+  IdsOk pre -> NoActiveWhenClosed pre -> is_cut o = false -> s_bad pre = [] -> FR (blobs_in_order pre) st ->
   judge_from ev_all st (step_evs K cfg pre (fst (step_q K cfg pre o)) o) = true /\
   FR (blobs_in_order (fst (step_q K cfg pre o))) (run_evs st (step_evs K cfg pre (fst (step_q K cfg pre o)) o)).
 Proof.
-  intros HI HN HF.
+  intros HI HN Hcut HB HF.
   pose proof (IdsOk_NoDup _ HI) as ND.
   pose proof (IdsOk_NoDup _ (step_q_IdsOk pre o HI)) as ND'.
-  pose proof (step_q_lext K cfg pre o HN) as HL.
+  pose proof (step_q_lext K cfg pre o HN Hcut HB) as HL.
   assert (Hgen : forall d, syncs d ->
      judge_from ev_all st (flat_map (blob_evs K (blobs_in_order pre)) (blobs_in_order (fst (step_q K cfg pre o))) ++ d) = true /\
      FR (blobs_in_order (fst (step_q K cfg pre o)))
@@ -706,35 +711,42 @@ Proof.
     + cbn [judge_from run_evs fold_left]. split; [reflexivity|].
       refine (FR_msame _ _ st _ HF).
       unfold step_q, step. cbn [needs_open andb]. rewrite EO. cbn [fst]. apply msame_quiesce.
-    + assert (EP : fst (step_q K cfg pre (OOpen lazy)) = do_open K (closed_blobs pre) (s_corrupted pre) lazy (s_f2 pre)).
-      { unfold step_q, step. cbn [needs_open andb]. rewrite EO. cbn [fst].
+    + assert (EP : fst (step_q K cfg pre (OOpen lazy)) =
+                   do_open K (closed_blobs pre) [] (s_quar pre) (s_corrupted pre) lazy (s_f2 pre)).
+      { unfold step_q, step. cbn [needs_open andb]. rewrite EO, HB. cbn [fst].
         apply quiesce_no_req, do_open_no_dump_req. }
       rewrite EP in *.
       assert (EB : blobs_in_order pre = closed_blobs pre).
       { rewrite bio_eq, (HN EO). cbn [oa]. rewrite app_nil_r. reflexivity. }
       rewrite EB in *.
       apply (reopen_ok (closed_blobs pre) _ _ st ND ND' HL); [|apply syncs_eds|exact HF].
-      intros b' Hb'. apply (do_open_members _ _ _ _ _ Hb').
+      intros b' Hb'. apply (do_open_members _ _ _ _ _ _ Hb').
+  - (* OCut *) discriminate Hcut.
 Qed.
 
+Lemma no_cut_cons o r : no_cut (o :: r) -> is_cut o = false /\ no_cut r.
+Proof. intros H. split; [apply H; left; reflexivity|intros x Hx; apply H; right; exact Hx]. Qed.
+
 Lemma run_trace_ok ops : forall s st,
-  IdsOk s -> NoActiveWhenClosed s -> FR (blobs_in_order s) st ->
+  IdsOk s -> NoActiveWhenClosed s -> no_cut ops -> s_bad s = [] -> FR (blobs_in_order s) st ->
   judge_from ev_all st (run_trace K cfg s ops) = true.
 Proof.
-  induction ops as [|o r IH]; intros s st HI HN HF; [reflexivity|].
+  induction ops as [|o r IH]; intros s st HI HN Hc HB HF; [reflexivity|].
+  apply no_cut_cons in Hc. destruct Hc as [Hco Hcr].
   cbn [run_trace]. cbv zeta. rewrite judge_from_app.
-  destruct (step_trace_ok s o st HI HN HF) as [J F]. rewrite J. cbn [andb].
-  apply IH; [apply step_q_IdsOk, HI|apply step_q_NoActiveWhenClosed, HN|exact F].
+  destruct (step_trace_ok s o st HI HN Hco HB HF) as [J F]. rewrite J. cbn [andb].
+  apply IH; [apply step_q_IdsOk, HI|apply step_q_NoActiveWhenClosed, HN|exact Hcr|apply bad_step_q; assumption|exact F].
 Qed.
 
 Lemma run_trace_FR ops : forall s st,
-  IdsOk s -> NoActiveWhenClosed s -> FR (blobs_in_order s) st ->
+  IdsOk s -> NoActiveWhenClosed s -> no_cut ops -> s_bad s = [] -> FR (blobs_in_order s) st ->
   FR (blobs_in_order (fst (run K cfg s ops))) (run_evs st (run_trace K cfg s ops)).
 Proof.
-  induction ops as [|o r IH]; intros s st HI HN HF; [exact HF|].
+  induction ops as [|o r IH]; intros s st HI HN Hc HB HF; [exact HF|].
+  apply no_cut_cons in Hc. destruct Hc as [Hco Hcr].
   cbn [run_trace run]. cbv zeta. rewrite run_evs_app.
-  destruct (step_trace_ok s o st HI HN HF) as [_ F].
-  specialize (IH _ _ (step_q_IdsOk s o HI) (step_q_NoActiveWhenClosed K cfg s o HN) F).
+  destruct (step_trace_ok s o st HI HN Hco HB HF) as [_ F].
+  specialize (IH _ _ (step_q_IdsOk s o HI) (step_q_NoActiveWhenClosed K cfg s o HN) Hcr (bad_step_q K cfg s o Hco HB) F).
   destruct (step_q K cfg s o) as [s' x]. cbn [fst] in *.
   destruct (run K cfg s' r) as [s'' xs]. exact IH.
 Qed.
@@ -742,19 +754,49 @@ Qed.
 (* the files the trace leaves behind are the blobs of the final state: every blob file has the length
    the model gives it and a synced header; there is no other blob file *)
 Theorem history_files_match : forall ops b,
+  no_cut ops ->
   In b (blobs_in_order (fst (run K cfg init_storage ops))) ->
   exists sy, fget (run_evs [] (run_trace K cfg init_storage ops)) (FBlob, b_id b) = Some (blob_size K b, sy) /\ 20 <= sy.
 Proof.
-  intros ops b Hb.
-  refine (proj1 (run_trace_FR ops init_storage [] init_IdsOk init_NoActiveWhenClosed _) b Hb).
+  intros ops b Hc Hb.
+  refine (proj1 (run_trace_FR ops init_storage [] init_IdsOk init_NoActiveWhenClosed Hc eq_refl _) b Hb).
   split; [intros x []|reflexivity].
 Qed.
 
-Theorem history_trace_accepted : forall ops, judge (run_trace K cfg init_storage ops) = true.
+Theorem history_trace_accepted : forall ops, no_cut ops -> judge (run_trace K cfg init_storage ops) = true.
 Proof.
-  intros ops. rewrite judge_all. apply run_trace_ok; [apply init_IdsOk|apply init_NoActiveWhenClosed|].
+  intros ops Hc. rewrite judge_all. apply run_trace_ok; [apply init_IdsOk|apply init_NoActiveWhenClosed|exact Hc|reflexivity|].
   split; [intros b []|reflexivity].
 Qed.
+
+(* with crash damage in the history: whatever happened before (cuts, quarantine), judged from a file state that matches
+   the directory as the crash left it -- every blob file with the length the model gives it and a synced header, no other
+   blob file -- the trace of every continuation without further damage is accepted, and its files match the final
+   state. (A real trace is judged this way when the follower of the file state is told the new length of a cut file
+   and forgets a file moved to the corrupted directory.) *)
+Theorem trace_after_crash_accepted : forall ops1 ops2 st,
+  let s := fst (run K cfg init_storage ops1) in
+  no_cut ops2 -> s_bad s = [] -> FR (blobs_in_order s) st ->
+  judge_from ev_harmless st (run_trace K cfg s ops2) && judge_from ev_header_synced st (run_trace K cfg s ops2)
+    && judge_from ev_index_after_sync st (run_trace K cfg s ops2) = true /\
+  FR (blobs_in_order (fst (run K cfg s ops2))) (run_evs st (run_trace K cfg s ops2)).
+Proof.
+  intros ops1 ops2 st s Hc HB HF.
+  assert (HI : IdsOk s) by (apply run_IdsOk, init_IdsOk).
+  assert (HN : NoActiveWhenClosed s) by (apply run_NoActiveWhenClosed, init_NoActiveWhenClosed).
+  split; [rewrite <- judge_from_all; apply run_trace_ok; assumption|apply run_trace_FR; assumption].
+Qed.
+
+(* why `no_cut` is needed as long as the trace has no event for the damage: the append after the restart lands below
+   the length followed so far *)
+Example cut_trace_not_accepted :
+  let cfg := {| c_dup := true; c_maxrec := 1000; c_maxsize := 1000000 |} in
+  judge (run_trace 4 cfg init_storage
+           [OOpen false; OWrite 1 7 None 8 5 1; OWrite 2 8 None 8 5 2; ODrop; OCut 0 (Some 1%nat); OOpen false;
+            OWrite 3 9 None 8 5 3]) = false /\
+  judge (run_trace 4 cfg init_storage
+           [OOpen false; OWrite 1 7 None 8 5 1; OWrite 2 8 None 8 5 2; ODrop; OOpen false; OWrite 3 9 None 8 5 3]) = true.
+Proof. vm_compute. split; reflexivity. Qed.
 
 End K.
 
@@ -770,3 +812,5 @@ Print Assumptions protocol_accepted.
 Print Assumptions protocol_clean.
 Print Assumptions history_trace_accepted.
 Print Assumptions history_files_match.
+Print Assumptions trace_after_crash_accepted.
+Print Assumptions cut_trace_not_accepted.
